@@ -81,16 +81,4 @@ def Api.shape_sound_full : Prop :=
         (resShapes rn).map (·.map Shape.toStr) = (resShapes rt).map (·.map Shape.toStr))
     | _, _ => True
 
-/-- `Graph.lazy_eq_eager_full` (values): for every program, forcing a node returns the value
-the eager API computed.  Values are outside this model (every FORWARD rule is shown to run the
-same kernels on the same arguments as the Tensor function, `Api.same_kernel`; that the graph
-evaluates each operator once, on the values of its arguments, is C05).  Recorded here as the
-statement over kernel traces that `Api.same_kernel` decides for single calls, extended to
-programs: -/
-def Graph.lazy_eq_eager_full : Prop :=
-  ∀ (t : Table), t.sameKernel = true → t.arityConsistent = true →
-    ∀ f ∈ t.publicNodeFns, ∀ g, counterpart t f = some g →
-      ∀ n ∈ f.outcomes t true, ∀ o ∈ g.outcomes t false,
-        pcCompatible n.1.pc o.1.pc = true → outcomeEq n o = true
-
 end Primitiv.C04
